@@ -259,6 +259,21 @@ func runProperty(eng *Engine, verifDir, prop, tier string, updateLedger, verbose
 			undecided = append(undecided, fmt.Sprintf("%s (function outside verifier subset: %s)", n, outsideFuncs[g.FV.short][0]))
 			continue
 		}
+		if st != "unsat" {
+			// a package-level variable that no contract speaks about (introduced by the change): its
+			// value is opaque to the verifier, failures of the function that reads it say "needs a
+			// contract", not "is wrong"
+			var opaque []string
+			for _, gname := range sortedKeys(g.FV.globalsRead) {
+				if !eng.specMentions(gname) {
+					opaque = append(opaque, gname)
+				}
+			}
+			if len(opaque) > 0 {
+				undecided = append(undecided, fmt.Sprintf("%s (%s reads the package-level variable %s, which no contract mentions)", n, g.FV.short, opaque[0]))
+				continue
+			}
+		}
 		if st != "unsat" && len(g.FV.uncontracted) > 0 {
 			// the function calls a repository function that has no contract and cannot be inlined (new
 			// helper with a loop): its body was not followed, the obligations after the call were checked
